@@ -112,7 +112,8 @@ CHECKS = {
         "every positive noise (randArgmax_unique); for pointwise candidate utilities restriction and row permutation act as stated (pointwise_restrict, "
         "pointwise_permute). Tie: the real _validate_data + _transform_candidates vs the model on random index lists; paired real queries under the three "
         "addressings, candidate subsets and row permutations for every strategy (lists of sample-wise scorers in the evidence assumptions). That a given "
-        "strategy's numeric score is pointwise is validated on samples, not proved.",
+        "strategy's numeric score is pointwise is validated on samples, not proved."
+        " UncertaintySampling's least_confident / margin_sampling scores, the scatter through the mapping and the utility weights are modelled (Core/Uncertainty.lean; C08us: scores_pointwise, us_restrict, leastConfident_spec) and compared bit-exactly through the captured probability rows.",
         design="§4 C08",
         technique="Lean 4 proof (index algebra) + paired-run correspondence on the implementation",
     ),
